@@ -9,6 +9,7 @@ use alloc::string::String;
 use alloc::string::ToString;
 use alloc::collections::btree_map::BTreeMap;
 
+#[cfg(test)]
 use chrono::Utc;
 use chrono::{NaiveDate, Datelike};
 use chrono::Timelike;
@@ -21,7 +22,7 @@ use crate::tokinizer::get_number_or_time;
 use crate::{tokinizer::Tokinizer, types::TokenType};
 use crate::tokinizer::{TokenInfo};
 
-pub fn small_date(config: &SmartCalcConfig, _: &Tokinizer, fields: &BTreeMap<String, Rc<TokenInfo>>) -> core::result::Result<TokenType, String> {
+pub fn small_date(config: &SmartCalcConfig, tokinizer: &Tokinizer, fields: &BTreeMap<String, Rc<TokenInfo>>) -> core::result::Result<TokenType, String> {
     if (fields.contains_key("day")) && fields.contains_key("month") {
         let day = match get_number("day", fields) {
             Some(number) => number,
@@ -35,7 +36,7 @@ pub fn small_date(config: &SmartCalcConfig, _: &Tokinizer, fields: &BTreeMap<Str
 
         let year = match get_number("year", fields) {
             Some(number) => number as i32,
-            _ => Utc::now().date().year() as i32
+            _ => tokinizer.session.now().year() as i32
         };
 
         return match NaiveDate::from_ymd_opt(year, month, day as u32) {
@@ -48,7 +49,7 @@ pub fn small_date(config: &SmartCalcConfig, _: &Tokinizer, fields: &BTreeMap<Str
     Err("Date type not valid".to_string())
 }
 
-pub fn at_date(config: &SmartCalcConfig, _: &Tokinizer, fields: &BTreeMap<String, Rc<TokenInfo>>) -> core::result::Result<TokenType, String> {
+pub fn at_date(config: &SmartCalcConfig, tokinizer: &Tokinizer, fields: &BTreeMap<String, Rc<TokenInfo>>) -> core::result::Result<TokenType, String> {
     if (fields.contains_key("source")) && fields.contains_key("time") {
         let (date, date_tz) = match get_date("source", fields) {
             Some(number) => number,
@@ -56,7 +57,7 @@ pub fn at_date(config: &SmartCalcConfig, _: &Tokinizer, fields: &BTreeMap<String
         };
         
         //todo: convert timezone informations
-        let (time, _) = match get_number_or_time(config, "time", fields) {
+        let (time, _) = match get_number_or_time(config, tokinizer.session, "time", fields) {
             Some(number) => number,
             _ => return Err("Date information not valid".to_string())
         };
